@@ -20,6 +20,7 @@ Tie to the source
 """
 import math
 import re
+import time
 import warnings
 from fractions import Fraction
 
@@ -58,10 +59,20 @@ def uvlist(X):
 
 
 def groups(s):
-    """the flat Z lists printed by Coq: '([1; 2], [3])' -> [[1, 2], [3]]"""
+    """the Z lists printed by Coq (each integer as [number of limbs; sign; limbs base 2^28...]): '([..], [..])' -> lists of ints"""
     if s is None:
         return None
-    return [[int(t) for t in re.findall(r'-?\d+', g)] for g in re.findall(r'\[([^\]]*)\]', s)]
+    out = []
+    for g in re.findall(r'\[([^\]]*)\]', s):
+        raw = [int(t) for t in re.findall(r'-?\d+', re.sub(r'%[A-Za-z_]+', '', g))]
+        vals, i = [], 0
+        while i < len(raw):
+            cnt, sign = raw[i], raw[i + 1]
+            v = sum(l << (28 * k) for k, l in enumerate(raw[i + 2:i + 2 + cnt]))
+            vals.append(-v if sign else v)
+            i += 2 + cnt
+        out.append(vals)
+    return out
 
 
 def pairs(l):
@@ -83,20 +94,26 @@ def close(model, impl, rel=1e-12):
 
 
 COQ_SHOW = '''
-Definition zq (x : Q) : list Z := [Qnum x; Zpos (Qden x)].
-Definition zoq (o : option Q) : list Z := match o with Some x => zq x | None => [0; 0]%Z end.
+(* integers are printed as [number of limbs; sign; limbs base 2^28 ...]: printing large Z numerals is slow *)
+Definition LB : Z := 268435456%Z.
+Fixpoint limbs (fuel : nat) (p : Z) : list Z :=
+  match fuel with O => [] | S f => if (p =? 0)%Z then [] else (p mod LB)%Z :: limbs f (p / LB)%Z end.
+Definition zint (x : Z) : list Z :=
+  let l := limbs 400 (Z.abs x) in Z.of_nat (List.length l) :: (if (x <? 0)%Z then 1%Z else 0%Z) :: l.
+Definition zq (x : Q) : list Z := zint (Qnum x) ++ zint (Zpos (Qden x)).
+Definition zoq (o : option Q) : list Z := match o with Some x => zq x | None => zint 0 ++ zint 0 end.
 Definition zfam (f : family) : Z := match f with Frank => 0 | Clayton => 1 | Gumbel => 2 end%Z.
-Definition zth (t : theta) : list Z := match t with Finite x => zq x | PosInf => [1; 0]%Z end.
-Definition zcop (c : copula) : list Z := zfam (fam c) :: zq (c_tau c) ++ zth (c_theta c).
+Definition zth (t : theta) : list Z := match t with Finite x => zq x | PosInf => zint 1 ++ zint 0 end.
+Definition zcop (c : copula) : list Z := zint (zfam (fam c)) ++ zq (c_tau c) ++ zth (c_theta c).
 Definition zerr (e : error) : Z :=
   match e with FrankFitRaised => 1 | IndexError => 2 | ZeroDivisionError => 3 | ValueError_empty => 4 end%Z.
-Definition zres (r : result copula) : list Z := match r with Ok c => 0%Z :: zcop c | Err e => [(- zerr e)%Z] end.
+Definition zres (r : result copula) : list Z := match r with Ok c => zint 0 ++ zcop c | Err e => zint (- zerr e) end.
 Definition zlist (l : list Q) : list Z := flat_map zq l.
 Definition zolist (l : list (option Q)) : list Z := flat_map zoq l.
 Definition zemp (r : result emp) :=
   match r with
-  | Ok e => ([0%Z], zlist (z_left e), zlist (L e), zlist (z_right e), zlist (R e))
-  | Err e => ([zerr e], [], [], [], [])
+  | Ok e => (zint 0, zlist (z_left e), zlist (L e), zlist (z_right e), zlist (R e))
+  | Err e => (zint (zerr e), [], [], [], [])
   end.
 (* outcome of Frank().fit(X) through C10's control model of Bivariate.fit on the generated Frank theta domain *)
 Definition ff_of (o : fit_out) : option (Q * theta) :=
@@ -108,7 +125,7 @@ Definition lookup (t : list (Q * option Q)) (z : Q) : option Q :=
   match find (fun p => Qeq_bool (fst p) z) t with Some p => snd p | None => None end.
 Definition tabcdf (tf tc tg : list (Q * option Q)) (c : copula) (z : Q) : option Q :=
   match fam c with Frank => lookup tf z | Clayton => lookup tc z | Gumbel => lookup tg z end.
-Definition zidx (o : option nat) : list Z := match o with Some i => [Z.of_nat i] | None => [(-1)%Z] end.
+Definition zidx (o : option nat) : list Z := match o with Some i => zint (Z.of_nat i) | None => zint (-1) end.
 '''
 IMPORTS = ('From Coq Require Import Qabs.\nFrom Cop Require Import Model.BivCtl Model.SelectCopula.\nFrom CopRun Require Import Gen_bivq.\n'
            'Import ListNotations.\nOpen Scope Q_scope.\n' + COQ_SHOW)
@@ -333,13 +350,17 @@ def l2_cases(rng, quick):
     reps = 1 if quick else 3
     for _ in range(reps):
         for fam in FAMS:
-            for tau in (0.3, 0.6):
+            for tau in ((float(rng.choice([0.3, 0.6])),) if quick else (0.3, 0.6)):
                 n = int(rng.choice([8, 16, 16, 32]))
-                lo, hi = [(0.0, 1.0), (0.3, 0.7), (0.15, 0.85)][int(rng.integers(0, 3))]
+                lo, hi = [(0.2, 0.8), (0.3, 0.7), (0.35, 0.65)][int(rng.integers(0, 3))]
                 gname = ['g7', 'g3', 'g12'][int(rng.integers(0, 3))]
                 out.append((f'round8-{fam.lower()}-tau{tau}-n{n}-{gname}', data(fam, tau, n, lo, hi), 'round8', grids[gname], gname))
-        for mode in ('same', 'two-same', 'two-same-fc', 'nan-Gumbel', 'nan-Clayton', 'nan-Frank', 'nan-Clayton+Gumbel',
-                     'nan-Frank+Clayton+Gumbel', 'nan1-Gumbel', 'nan1-Frank', 'synth'):
+        modes = ('same', 'two-same', 'two-same-fc', 'nan-Gumbel', 'nan-Clayton', 'nan-Frank', 'nan-Clayton+Gumbel',
+                 'nan-Frank+Clayton+Gumbel', 'nan1-Gumbel', 'nan1-Frank', 'synth')
+        if quick:
+            modes = ('same', 'two-same', 'nan-Gumbel', 'nan-Frank', 'nan-Clayton+Gumbel', 'nan1-Gumbel', 'synth',
+                     ('two-same-fc', 'nan-Clayton', 'nan-Frank+Clayton+Gumbel', 'nan1-Frank')[int(rng.integers(0, 4))])
+        for mode in modes:
             n = int(rng.choice([8, 16]))
             out.append((f'{mode}-n{n}', data(FAMS[int(rng.integers(0, 3))], 0.5, n, 0.3, 0.7), mode, grids['g7'], 'g7'))
     # tau = 1 (quirk D6: Clayton keeps theta = inf, Gumbel is dropped): two candidates only
@@ -542,6 +563,7 @@ def run(ctx):
              'including points on the grid and tau = 1): full Model.select_copula evaluated in Coq, same family/tau/theta required')
     ctx.rule('witness search on every table: result type, tau = scipy kendalltau, Clayton 2tau/(1-tau), Gumbel 1/(1-tau), Frank residual of the '
              'library tau equation <= 1e-6, tau <= 0 -> Frank, three calls (same array, again, Fortran-ordered copy) agree, global RNG state unchanged')
+    ctx.log(f'generation + proofs done at {time.time() - ctx.t0:.1f}s')
     if not q_ok:
         ctx.log('Gen_bivq.v not available: correspondence in Coq skipped, witness search only')
     rng = np.random.default_rng(ctx.seed + 1100)
@@ -574,6 +596,7 @@ def run(ctx):
                                 'tactic': 'corr_prep; integral with (i_prec 60, i_relwidth 40)',
                                 'meta': {'dataset': name, 'tau': r[2], 'theta': r[3], 'X': np.asarray(X).tolist()}})
     ctx.extra['quirks_observed'] = quirks
+    ctx.log(f'witness search done at {time.time() - ctx.t0:.1f}s')
     ctx.extra['frank_true_tau_equation_max_abs_residual_report_only'] = frank_true_dev
 
     if q_ok:
@@ -605,8 +628,10 @@ def run_streams(ctx, gens):
     yield its Coq cases, judge the results.  The Coq evaluations of the streams run concurrently."""
     from concurrent.futures import ThreadPoolExecutor
     reqs = [next(g) for g in gens]
+    ctx.log(f'implementation runs captured at {time.time() - ctx.t0:.1f}s; {[len(r[0][2]) for r in reqs]} Coq cases')
     with ThreadPoolExecutor(len(gens)) as ex:
         outs = list(ex.map(lambda r: cases.run_vm_cases(ctx, *r[0], **r[1]), reqs))
+    ctx.log(f'Coq evaluation done at {time.time() - ctx.t0:.1f}s')
     for g, o in zip(gens, outs):
         try:
             g.send(o)
